@@ -294,6 +294,7 @@ func checkC13(c *Ctx) {
 	// a definition is marked as referenced (hence skipped by the definitions pass) only by a
 	// comparison that really runs: the visited test precedes the $ref resolution
 	checkRecursionGuard(c, "C13.R8.visited-order", pk)
+	checkLoopTotality(c, "C13.R10.loop-totality", pk, "diff", 30, map[string]string{})
 	checkAccumulation(c, pk)
 	checkTwinShortcuts(c, "C13.R4.twin-shortcuts", r)
 	checkComparedAsDeclared(c, pk)
